@@ -63,6 +63,8 @@ type FuncContract struct {
 	Assumed    bool // from /verif/assumed (external)
 	Used       bool
 	GhostMods  []string
+	Callbacks    []Clause // "callback f preserves e": a call of the function-valued parameter f leaves e as it was (assumption about the caller-supplied code, listed in the evidence)
+	OnPanic      []Clause // must hold, after the deferred calls registered so far have run, if a callee panics
 	Decreases    []string // termination measure (lexicographic tuple of Int expressions over the parameters)
 	DecreasesPos string
 	Abstractions []Clause // caller-visible postconditions about the ghost view that are NOT verified against the body (assumption, listed in evidence)
@@ -89,7 +91,7 @@ type Contracts struct {
 }
 
 var clauseKeywords = map[string]bool{
-	"func": true, "prop": true, "arith": true, "requires": true, "ensures": true, "decreases": true, "covers": true, "abstraction": true, "repinv": true, "uses": true,
+	"func": true, "prop": true, "arith": true, "requires": true, "ensures": true, "onpanic": true, "callback": true, "decreases": true, "covers": true, "globals_readonly": true, "abstraction": true, "repinv": true, "uses": true,
 	"modifies": true, "invariant": true, "nopanic": true, "trusted": true, "pure": true,
 	"specfn": true, "let": true, "assume": true, "typeinv": true, "protect": true,
 	"monotone": true, "results": true, "assert": true, "package": true, "sweep": true,
@@ -175,7 +177,7 @@ func parseContractFile(path string, pkgPath string, assumed bool, cs *Contracts)
 				return fmt.Errorf("%s: duplicate specfn %s", rc.pos, sf.Name)
 			}
 			cs.SpecFns[sf.Name] = sf
-		case "covers", "typeinv", "repinv", "protect", "monotone", "axiom", "ghostfield", "ghostarray", "frame", "lemma", "reads_not", "readafter":
+		case "covers", "globals_readonly", "typeinv", "repinv", "protect", "monotone", "axiom", "ghostfield", "ghostarray", "frame", "lemma", "reads_not", "readafter":
 			cs.Decls = append(cs.Decls, PkgDecl{Kind: rc.kw, Pkg: curPkg, Text: text, Pos: rc.pos, Props: props})
 		default:
 			if cur == nil {
@@ -286,6 +288,10 @@ func parseContractFile(path string, pkgPath string, assumed bool, cs *Contracts)
 					cur.Ensures = append(cur.Ensures, cl)
 				case "abstraction":
 					cur.Abstractions = append(cur.Abstractions, cl)
+				case "onpanic":
+					cur.OnPanic = append(cur.OnPanic, cl)
+				case "callback":
+					cur.Callbacks = append(cur.Callbacks, cl)
 				case "let":
 					cur.Lets = append(cur.Lets, cl)
 				case "assert", "assume", "snap", "apply":
